@@ -6,6 +6,14 @@ ROOT = os.path.dirname(os.path.dirname(os.path.abspath(__file__)))
 
 # id -> (technique, level text, level note, design ref)
 CLAIMED = {
+    "C01": ("TLA+ TdmsSegments (explicit layer): TLC enumerates well-formed files in three exhaustive slices; every "
+            "state (= every file prefix) replayed into TdmsFile.read/open and compared with the specification's view",
+            "Model checking of the file-as-history state machine within small bounds plus spec->code conformance on "
+            "every state: objects, group/channel order, implied groups, data type, length, bit-exact values for all "
+            "17 types x contiguous/interleaved x multi-chunk x byte order, last-written properties.",
+            "Trusted: TLC, ExplicitView as the definition of a file's meaning, independent encoder/projection "
+            "(harness/enc.py, harness/proj.py), value concretisation per type.",
+            "DESIGN.md 3.3, 5/C01"),
     "C02": ("TLA+ TdmsSegments: TLC model checking of reader model vs explicit meaning over all valid encodings; "
             "every reachable encoded file replayed into TdmsFile.read/open (spec->code conformance)",
             "Exhaustive model checking of the segment-inheritance state machine within small bounds (2-3 segments, "
@@ -14,6 +22,14 @@ CLAIMED = {
             "Trusted: TLC, the rewrite rules R1-R4 as the definition of a valid encoding, the independent byte "
             "encoder harness/enc.py and projection harness/proj.py.",
             "DESIGN.md 3.3, 5/C02"),
+    "C15": ("TLA+ TdmsSegments: byte order is an attribute of the encoding only; TLC enumerates per-segment byte-order "
+            "assignments, each file replayed in 4 byte-order variants against the one specification view",
+            "Model checking + spec->code conformance: all 2^k per-segment byte-order assignments (k<=2) over "
+            "representative types of every kind, both layouts, and property values; all variants must read as the "
+            "same view.",
+            "Trusted: TLC, independent encoder's per-field byte swapping. DAQmx scalers under both byte orders are "
+            "exercised by C11's check.",
+            "DESIGN.md 3.3, 5/C15"),
 }
 
 PENDING = {}
